@@ -54,11 +54,11 @@ class TypeEnv:
                 return ("opt", self._p(args[0]))
             if head == "Union":
                 return self._union([self._p(a) for a in args])
-            if head in ("list", "List", "Seq", "Sequence", "Iterable"):
+            if head in ("list", "List", "Seq", "seq", "Sequence", "Iterable"):
                 return ("seq", self._p(args[0]))
             if head in ("set", "Set", "frozenset", "FrozenSet"):
                 return ("set", self._p(args[0]))
-            if head in ("dict", "Dict", "Map", "defaultdict", "Mapping"):
+            if head in ("dict", "Dict", "Map", "map", "defaultdict", "Mapping"):
                 return ("map", self._p(args[0]), self._p(args[1]))
             if head in ("tuple", "Tuple"):
                 return ("tuple", tuple(self._p(a) for a in args))
